@@ -292,6 +292,12 @@ def run(tier, seed):
     bad = [("json", '{"a": 1'), ("json", '{"a": }'), ("json", "[1, 2,]"), ("json", '{"a": 1} x'), ("json", ""), ("json", "nul"),
            ("yaml", "a: [1, 2"), ("yaml", "a: b: c: d"), ("yaml", "- a\n b: 1\n  - c"), ("yaml", "\t- x: {"),
            ("toml", "a = "), ("toml", "a = 1\na = 2"), ("toml", "[t\nx = 1"), ("toml", "a = [1, "), ("toml", "= 1")]
+    # files that are not UTF-8 text are malformed for every text-based type (the string would not be the file's text)
+    for raw in [b"caf\xe9 ol\xe9\n", b"\xff\xfe", b"ab\xe2\x82", b"\xc0\xaf", b"\xed\xa0\x80", b"ok \xf0\x9f\x98", b"\x80"]:
+        bad.append(("str", raw))
+        bad.append(("json", b'{"a": "' + raw.replace(b"\n", b"") + b'"}'))
+        bad.append(("yaml", b'a: "' + raw.replace(b"\n", b"") + b'"\n'))
+        bad.append(("toml", b'a = "' + raw.replace(b"\n", b"") + b'"\n'))
     for (d0, text) in docs[:20]:
         if len(text) > 6 and isinstance(d0, (dict, list)) and d0:
             cut = text[:rng.randint(1, len(text) - 1)]
